@@ -2,7 +2,7 @@
 tree's OperatorRegistry, checked against an independent unifier, singleton resolutions and all registration orders)."""
 from __future__ import annotations
 import itertools, os, random, re, subprocess, time
-from .runner import Violation, Inconclusive, ensure_build, SCRATCH, write_evidence, REPLAYS, load_known
+from .runner import Violation, Inconclusive, ensure_build, SCRATCH, write_evidence, REPLAYS, load_known, scaled
 import json
 
 PROPERTY = "C19"
@@ -333,7 +333,7 @@ def main(tier, seed, replay):
         return 2
     rng = random.Random(f"C19/{seed}/{tier}")
     labels = list(POOL)
-    nfam = 2500 if tier == "quick" else 60000
+    nfam = scaled(2500 if tier == "quick" else 60000)
     fams = []
     if replay:
         rp = json.load(open(replay))
